@@ -36,7 +36,7 @@ RULE = (
 )
 ASSUMPTIONS = [
     "explicit output arguments (out=, in-place operators) are outside the compared spellings",
-    "ufunc.reduce/accumulate are compared with an explicit integer axis only (their default axis differs from sum/cumsum by numpy's definition)",
+    "ufunc.reduce/accumulate with the axis omitted mean axis 0 (numpy's definition; sum/cumsum default to axis=None): that spelling is compared with the axis=0 call",
     "plain converters called without like= (numpy.array, asarray ...) never dispatch and are outside the claim",
     "supported methods = methods overridden in baseclass.py or spelled by the repository's interface fixture (sum prod cumsum mean max min all any round diagonal reshape transpose repeat nonzero)",
 ]
